@@ -147,6 +147,133 @@ var c20KeyForms = [][]c20Key{
 	{{"0.5", "0.5"}},
 }
 
+// c20Model replays one query on the register model: the rows the first Exec must return, and - when the query is
+// executed twice - the rows of the second Exec (rows2). model is updated in place.
+func c20Model(q *c20Query, table []any, model map[string]any) (rows1, rows2 []any) {
+	// sequential register model
+	src := table
+	if q.Dual {
+		src = []any{map[string]any{}}
+	}
+	passes := 1
+	if q.Twice {
+		passes = 2
+	}
+	var rows []any
+	for pass := 0; pass < passes; pass++ {
+		rows1 = rows
+		rows = []any{}
+		var deferred []func()
+		for _, r := range src {
+			row := r.(map[string]any)
+			if q.WhereK >= 0 && row["a"].(float64) < float64(q.WhereK) {
+				continue
+			}
+			out := map[string]any{}
+			for _, it := range q.Items {
+				switch it.Kind {
+				case "col":
+					out[it.Col] = row[it.Col]
+				case "get":
+					out[it.Alias] = model[it.Key] // nil when never set
+				case "async":
+					out[it.Alias] = stubValue("fx", it.Site, row["a"])
+				case "await_get":
+					it, out := it, out
+					out[it.Alias] = nil
+					deferred = append(deferred, func() { out[it.Alias] = model[it.Key] })
+				case "await_set":
+					it, row := it, row
+					deferred = append(deferred, func() {
+						switch it.VKind {
+						case "num":
+							model[it.Key] = it.VNum
+						case "col":
+							model[it.Key] = row["a"]
+						case "getvar":
+							model[it.Key] = model[it.VKey]
+						}
+					})
+				case "getsub":
+					out[it.Alias] = map[string]any{"g": model[it.Key]}
+				case "case_set":
+					if row["a"].(float64) >= float64(it.CaseK) {
+						model[it.Key] = row["a"]
+					} else {
+						model[it.Key2] = row["id"]
+					}
+				case "if_get":
+					if row["a"].(float64) >= float64(it.CaseK) {
+						out[it.Alias] = model[it.Key]
+					} else {
+						out[it.Alias] = model[it.Key2]
+					}
+				case "setsub":
+					if it.VKind == "num" {
+						model[it.Key] = it.VNum
+					} else {
+						model[it.Key] = row["a"]
+					}
+					if it.Key2 != "" {
+						out[it.Alias] = map[string]any{"g2": model[it.Key2]}
+					} else {
+						out[it.Alias] = map[string]any{}
+					}
+				case "setv_async":
+					out[it.Alias] = nil
+				case "set":
+					var v any
+					switch it.VKind {
+					case "col":
+						v = row[it.VCol]
+					case "num":
+						v = it.VNum
+					case "str":
+						v = it.VStr
+					case "null":
+						v = nil
+					case "sum":
+						v = row["a"].(float64) + row["id"].(float64)
+					case "getvar":
+						v = model[it.VKey]
+					case "bool":
+						v = it.VNum == 1
+					}
+					model[it.Key] = v
+				}
+			}
+			rows = append(rows, out)
+		}
+		// awaited reads and writes happen after the last row of this evaluation, in (row, item) order
+		for _, d := range deferred {
+			d()
+		}
+		if q.Grid {
+			// the result has the nesting of the source
+			nested := []any{}
+			k := 0
+			for i := 0; i < len(src); i += 2 {
+				inner := []any{}
+				for j := i; j < i+2 && j < len(src); j++ {
+					if q.WhereK < 0 || src[j].(map[string]any)["a"].(float64) >= float64(q.WhereK) {
+						inner = append(inner, rows[k])
+						k++
+					}
+				}
+				nested = append(nested, inner)
+			}
+			rows = nested
+		}
+	}
+	if !q.Twice {
+		rows1 = rows
+	}
+	if q.Twice {
+		return rows1, rows
+	}
+	return rows1, nil
+}
+
 func genC20(t *rapid.T) *Bundle {
 	n := rapid.IntRange(0, 5).Draw(t, "nrows")
 	table := []any{}
@@ -306,125 +433,8 @@ func genC20(t *rapid.T) *Bundle {
 				}
 			}
 		}
-		// sequential register model
-		src := table
-		if q.Dual {
-			src = []any{map[string]any{}}
-		}
 		q.Twice = rapid.IntRange(0, 3).Draw(t, "exec_twice") == 0
-		passes := 1
-		if q.Twice {
-			passes = 2
-		}
-		var rows, rows1 []any
-		for pass := 0; pass < passes; pass++ {
-			rows1 = rows
-			rows = []any{}
-			var deferred []func()
-			for _, r := range src {
-				row := r.(map[string]any)
-				if q.WhereK >= 0 && row["a"].(float64) < float64(q.WhereK) {
-					continue
-				}
-				out := map[string]any{}
-				for _, it := range q.Items {
-					switch it.Kind {
-					case "col":
-						out[it.Col] = row[it.Col]
-					case "get":
-						out[it.Alias] = model[it.Key] // nil when never set
-					case "async":
-						out[it.Alias] = stubValue("fx", it.Site, row["a"])
-					case "await_get":
-						it, out := it, out
-						out[it.Alias] = nil
-						deferred = append(deferred, func() { out[it.Alias] = model[it.Key] })
-					case "await_set":
-						it, row := it, row
-						deferred = append(deferred, func() {
-							switch it.VKind {
-							case "num":
-								model[it.Key] = it.VNum
-							case "col":
-								model[it.Key] = row["a"]
-							case "getvar":
-								model[it.Key] = model[it.VKey]
-							}
-						})
-					case "getsub":
-						out[it.Alias] = map[string]any{"g": model[it.Key]}
-					case "case_set":
-						if row["a"].(float64) >= float64(it.CaseK) {
-							model[it.Key] = row["a"]
-						} else {
-							model[it.Key2] = row["id"]
-						}
-					case "if_get":
-						if row["a"].(float64) >= float64(it.CaseK) {
-							out[it.Alias] = model[it.Key]
-						} else {
-							out[it.Alias] = model[it.Key2]
-						}
-					case "setsub":
-						if it.VKind == "num" {
-							model[it.Key] = it.VNum
-						} else {
-							model[it.Key] = row["a"]
-						}
-						if it.Key2 != "" {
-							out[it.Alias] = map[string]any{"g2": model[it.Key2]}
-						} else {
-							out[it.Alias] = map[string]any{}
-						}
-					case "setv_async":
-						out[it.Alias] = nil
-					case "set":
-						var v any
-						switch it.VKind {
-						case "col":
-							v = row[it.VCol]
-						case "num":
-							v = it.VNum
-						case "str":
-							v = it.VStr
-						case "null":
-							v = nil
-						case "sum":
-							v = row["a"].(float64) + row["id"].(float64)
-						case "getvar":
-							v = model[it.VKey]
-						case "bool":
-							v = it.VNum == 1
-						}
-						model[it.Key] = v
-					}
-				}
-				rows = append(rows, out)
-			}
-			// awaited reads and writes happen after the last row of this evaluation, in (row, item) order
-			for _, d := range deferred {
-				d()
-			}
-			if q.Grid {
-				// the result has the nesting of the source
-				nested := []any{}
-				k := 0
-				for i := 0; i < len(src); i += 2 {
-					inner := []any{}
-					for j := i; j < i+2 && j < len(src); j++ {
-						if q.WhereK < 0 || src[j].(map[string]any)["a"].(float64) >= float64(q.WhereK) {
-							inner = append(inner, rows[k])
-							k++
-						}
-					}
-					nested = append(nested, inner)
-				}
-				rows = nested
-			}
-		}
-		if !q.Twice {
-			rows1 = rows
-		}
+		rows1, rows := c20Model(&q, table, model)
 		snap := map[string]any{}
 		for k, v := range model {
 			snap[k] = v
